@@ -1,6 +1,6 @@
 (* Property C08 -- malformed peer input fails cleanly, promptly and within bounded memory.
    Statements only; proofs live in Proofs/ (hand models) and Gen/*Proof.v (generated proof
-   scripts for the regenerated crash models).  Synced to /repo 79180d8. *)
+   scripts for the regenerated crash models).  Synced to /repo 7b4ef0e. *)
 From Coq Require Import ZArith List Bool.
 From TV Require Import Base.Prelude Base.C08_Lib Model.C08_Known Gen.HrrShChecks Proofs.C08_HelloHrrSh
                        Gen.HrrChChecks Proofs.C08_HelloHrr
@@ -110,10 +110,11 @@ Proof. destruct hrr_sh_examples as (A & B & _ & _ & C & _). exact (conj A (conj 
 
 (* ---------------------------------------------------------------------------------------
    2. The error funnel (hand model of _getMsg / _getNextRecordFromSocket / _sendError /
-   _shutdown / readAsync / writeAsync / closeAsync / _handshakeWrapperAsync at /repo 79180d8,
+   _shutdown / readAsync / writeAsync / closeAsync / _handshakeWrapperAsync at /repo 7b4ef0e,
    i.e. with the wrapper clause of 6da5459 / 0bc7834 that turns TLSIllegalParameterException /
    TLSDecodeError / TLSDecryptionFailed into alerts and closes even when the alert cannot be
-   sent). *)
+   sent).  The state distinguishes alerts handed to the real socket (`wire`) from alerts sitting
+   in BufferedSocket's write queue (`queued`, flag `buffering` = sock.buffer_writes). *)
 (* C08 funnel: every handshake/read/write/close call that ends by raising leaves the
    connection closed, the socket closed (if closeSocket) and the session not resumable.
    wf_event excludes exactly the holes proved as hole_* below. *)
@@ -133,9 +134,11 @@ Theorem funnel_alert_then_close :
   forall ly dp e d0 st o st' d,
     mapped_alert dp e = Some d ->
     layer_eqb ly LClose && closed st = false ->
+    queued st = [] ->
     funnel ly dp (ARaise e d0) false st = (o, st') ->
     wire st' = wire st ++ alert_pre ly
                        ++ WAlert level_fatal d :: WShutdown false :: alert_tail ly st
+    /\ queued st' = [] /\ buffering st' = false
     /\ (fault st = None -> o = Raised (mkr E_TLSLocalAlert (Some d))).
 Proof. exact funnel_alert_before_close. Qed.
 
@@ -143,9 +146,11 @@ Theorem funnel_alert_unsendable :
   forall ly dp e d0 st o st' d,
     mapped_alert dp e = Some d ->
     layer_eqb ly LClose = false ->
+    queued st = [] ->
     funnel ly dp (ARaise e d0) true st = (o, st') ->
     o = Raised (mkr E_SockError None)
     /\ (exists tail, wire st' = wire st ++ tail /\ forallb is_shutdown_ev tail = true)
+    /\ queued st' = []
     /\ closed st' = true.
 Proof. exact funnel_alert_send_failure. Qed.
 
@@ -158,8 +163,9 @@ Theorem handshake_direct_protocol_error_alerts :
     is_pretry dp = false -> mapped_alert dp e = None -> wrapper_alert e = Some d ->
     funnel LHandshake dp (ARaise e d0) false st = (o, st') ->
     o = Raised (mkr E_TLSLocalAlert (Some d))
-    /\ st' = shutdown false (emit (WAlert level_fatal d) st)
-    /\ wire st' = wire st ++ [WAlert level_fatal d; WShutdown false]
+    /\ st' = shutdown false (send_alert_now d st)
+    /\ wire st' = wire st ++ queued st ++ [WAlert level_fatal d; WShutdown false]
+    /\ queued st' = [] /\ buffering st' = false
     /\ closed st' = true
     /\ (close_socket st = true -> sock_closed st' = true)
     /\ (has_session st = true -> resumable st' = false)
@@ -174,7 +180,7 @@ Theorem wrapper_alert_unsendable_closes :
     funnel LHandshake dp (ARaise e d0) true st = (o, st') ->
     o = Raised (mkr E_SockError None)
     /\ st' = shutdown false st
-    /\ wire st' = wire st ++ [WShutdown false]
+    /\ (queued st = [] -> wire st' = wire st ++ [WShutdown false])
     /\ closed st' = true
     /\ (close_socket st = true -> sock_closed st' = true)
     /\ (has_session st = true -> resumable st' = false)
@@ -195,11 +201,125 @@ Theorem direct_illegal_parameter_alert :
   forall st,
     funnel LHandshake DDirect (ARaise E_TLSIllegalParameterException None) false st
       = (Raised (mkr E_TLSLocalAlert (Some illegal_parameter)),
-         shutdown false (emit (WAlert level_fatal illegal_parameter) st))
+         shutdown false (send_alert_now illegal_parameter st))
     /\ protocol_violation E_TLSIllegalParameterException = true
     /\ documented E_TLSIllegalParameterException = false
     /\ documented E_TLSLocalAlert = true.
 Proof. exact direct_illegal_parameter_now_alert. Qed.
+
+(* ---- _sendError writes its alert whatever the write-buffering mode (TLS <= 1.2 client between
+   ServerHello and its own Finished has sock.buffer_writes set): flush, buffering off, send *)
+Theorem send_error_alert_is_written_not_queued :
+  forall d st,
+    sendError d false st
+    = (Raised (mkr E_TLSLocalAlert (Some d)), shutdown false (send_alert_now d st))
+    /\ wire (send_alert_now d st) = wire st ++ queued st ++ [WAlert level_fatal d]
+    /\ queued (send_alert_now d st) = []
+    /\ buffering (send_alert_now d st) = false
+    /\ wire (shutdown false (send_alert_now d st))
+       = wire st ++ queued st ++ [WAlert level_fatal d; WShutdown false]
+    /\ queued (shutdown false (send_alert_now d st)) = []
+    /\ buffering (shutdown false (send_alert_now d st)) = false.
+Proof. exact Proofs.C08_Funnel.send_error_alert_is_written_not_queued. Qed.
+
+Theorem funnel_send_error_alert_written :
+  forall ly dp d st o st',
+    is_pretry dp = false ->
+    layer_eqb ly LClose && closed st = false ->
+    queued st = [] ->
+    funnel ly dp (ASendError d) false st = (o, st') ->
+    wire st' = wire st ++ alert_pre ly
+                       ++ WAlert level_fatal d :: WShutdown false :: alert_tail ly st
+    /\ queued st' = [] /\ buffering st' = false
+    /\ (fault st = None -> o = Raised (mkr E_TLSLocalAlert (Some d))).
+Proof. exact Proofs.C08_Funnel.funnel_send_error_alert_written. Qed.
+
+(* ---- alerts received from the peer, for EVERY value of the level byte: what is not a warning
+   and not close_notify is treated as fatal (levels 2, 0, 3, 255, ...) *)
+Theorem received_non_warning_alert_closes :
+  forall ly dp level descr sf st o st',
+    level <> level_warning -> descr <> close_notify ->
+    layer_eqb ly LClose = false -> fault st = None ->
+    funnel ly dp (APeerAlert level descr) sf st = (o, st') ->
+    o = Raised (mkr E_TLSRemoteAlert (Some descr))
+    /\ closed st' = true
+    /\ (close_socket st = true -> sock_closed st' = true)
+    /\ (has_session st = true -> resumable st' = false)
+    /\ (queued st = [] ->
+        queued st' = []
+        /\ exists tail, wire st' = wire st ++ WShutdown false :: tail
+                        /\ forallb is_shutdown_ev tail = true).
+Proof. exact Proofs.C08_Funnel.received_non_warning_alert_closes. Qed.
+
+Theorem received_warning_alert_closes :
+  forall ly dp descr sf st o st',
+    descr <> close_notify ->
+    layer_eqb ly LClose = false -> fault st = None ->
+    funnel ly dp (APeerAlert level_warning descr) sf st = (o, st') ->
+    o = Raised (mkr E_TLSRemoteAlert (Some descr))
+    /\ closed st' = true
+    /\ (close_socket st = true -> sock_closed st' = true)
+    /\ (has_session st = true -> resumable st' = false).
+Proof. exact Proofs.C08_Funnel.received_warning_alert_closes. Qed.
+
+Theorem received_warning_reply_written :
+  forall ly dp descr st o st',
+    descr <> close_notify ->
+    layer_eqb ly LClose = false -> queued st = [] ->
+    buffering st = false \/ close_socket st = true ->
+    funnel ly dp (APeerAlert level_warning descr) false st = (o, st') ->
+    queued st' = []
+    /\ exists tail, wire st' = wire st ++ WAlert level_warning close_notify :: WShutdown false :: tail
+                    /\ forallb is_shutdown_ev tail = true.
+Proof. exact Proofs.C08_Funnel.received_warning_reply_written. Qed.
+
+(* hole of the code: write-buffering mode without closeSocket: the close_notify reply is only
+   queued, nothing ever flushes it *)
+Theorem hole_warning_reply_stays_queued :
+  forall dp descr st o st',
+    descr <> close_notify -> fault st = None ->
+    buffering st = true -> close_socket st = false ->
+    funnel LHandshake dp (APeerAlert level_warning descr) false st = (o, st') ->
+    queued st' = queued st ++ [WAlert level_warning close_notify]
+    /\ exists tail, wire st' = wire st ++ tail /\ forallb is_shutdown_ev tail = true.
+Proof. exact received_warning_reply_stays_queued. Qed.
+
+Theorem received_close_notify_in_read :
+  forall dp level sf st,
+    is_pretry dp = false ->
+    exists st', funnel LRead dp (APeerAlert level close_notify) sf st = (Done, st')
+                /\ closed st' = true /\ resumable st' = resumable st
+                /\ (close_socket st = true -> sock_closed st' = true).
+Proof. exact Proofs.C08_Funnel.received_close_notify_in_read. Qed.
+
+Theorem received_alert_in_close :
+  forall dp level descr sf st o st',
+    is_pretry dp = false ->
+    closed st = false ->
+    funnel LClose dp (APeerAlert level descr) sf st = (o, st') ->
+    closed st' = true
+    /\ (close_socket st = true -> sock_closed st' = true)
+    /\ (if descr =? close_notify
+        then o = Done /\ resumable st' = resumable st
+        else o = Raised (mkr E_TLSRemoteAlert (Some descr))
+             /\ (has_session st = true -> resumable st' = false)).
+Proof. exact Proofs.C08_Funnel.received_alert_in_close. Qed.
+
+Example ex_funnel_received_level_255 :
+  funnel LHandshake DParser (APeerAlert 255 40) false (init_state LHandshake)
+  = (Raised (mkr E_TLSRemoteAlert (Some 40)),
+     mkcst true true false false [WShutdown false] true false None false [])
+  /\ funnel LRead DParser (APeerAlert 0 80) false (init_state LRead)
+     = (Raised (mkr E_TLSRemoteAlert (Some 80)),
+        mkcst true true true false [WShutdown false; WShutdown false] true false None false []).
+Proof. exact ex_received_level_255. Qed.
+
+Example ex_funnel_buffering_decode_error_written :
+  funnel LHandshake DParser (ARaise E_DecodeError None) false
+         (mkcst true false false false [] false false None true [])
+  = (Raised (mkr E_TLSLocalAlert (Some 50)),
+     mkcst true false false false [WAlert 2 50; WShutdown false] false false None false []).
+Proof. exact ex_buffering_decode_error_written. Qed.
 
 Theorem documented_exceptions_only :
   forall ly dp e d0 sf st r st',
@@ -327,14 +447,14 @@ Example ex_funnel_read_bad_mac :
   /\ funnel LRead DRecord (ARaise E_TLSBadRecordMAC None) false (init_state LRead)
      = (Raised (mkr E_TLSLocalAlert (Some 20)),
         mkcst true true true false [WAlert 2 20; WShutdown false; WShutdown false]
-              true false None).
+              true false None false []).
 Proof. exact ex_read_bad_mac. Qed.
 
 Example ex_funnel_handshake_decode_error :
   specified DParser E_DecodeError = true
   /\ funnel LHandshake DParser (ARaise E_DecodeError None) false (init_state LHandshake)
      = (Raised (mkr E_TLSLocalAlert (Some 50)),
-        mkcst true true false false [WAlert 2 50; WShutdown false] true false None).
+        mkcst true true false false [WAlert 2 50; WShutdown false] true false None false []).
 Proof. exact ex_handshake_decode_error. Qed.
 
 Example ex_funnel_handshake_direct_decryption_failed :
@@ -343,14 +463,14 @@ Example ex_funnel_handshake_direct_decryption_failed :
   /\ wrapper_alert E_TLSDecryptionFailed = Some decrypt_error
   /\ funnel LHandshake DDirect (ARaise E_TLSDecryptionFailed None) false (init_state LHandshake)
      = (Raised (mkr E_TLSLocalAlert (Some 51)),
-        mkcst true true false false [WAlert 2 51; WShutdown false] true false None).
+        mkcst true true false false [WAlert 2 51; WShutdown false] true false None false []).
 Proof. exact ex_handshake_direct_decryption_failed. Qed.
 
 Example ex_funnel_crash_attribute_error :
   is_crash E_AttributeError = true
   /\ funnel LHandshake DParser (ARaise E_AttributeError None) false (init_state LHandshake)
      = (Raised (mkr E_AttributeError None),
-        mkcst true true false false [WShutdown false] true false None).
+        mkcst true true false false [WShutdown false] true false None false []).
 Proof. exact ex_crash_attribute_error. Qed.
 
 
